@@ -107,7 +107,7 @@ func NewProxy(s *server) elton.Handler {
 		}
 
 		reqHeader := c.Request.Header
-		var ifModifiedSince, ifNoneMatch string
+		var ifModifiedSince, ifNoneMatch, headerRangeValue string
 		status := getCacheStatus(c)
 		// 针对fetching的请求，由于其最终状态未知，因此需要删除有可能导致304的请求，避免无法生成缓存
 		if status == cache.StatusFetching {
@@ -118,6 +118,11 @@ func NewProxy(s *server) elton.Handler {
 			}
 			if ifNoneMatch != "" {
 				reqHeader.Del(elton.HeaderIfNoneMatch)
+			}
+			// range请求会导致upstream只返回部分数据(206)，同样需要删除，避免将部分数据缓存
+			headerRangeValue = reqHeader.Get(headerRange)
+			if headerRangeValue != "" {
+				reqHeader.Del(headerRange)
 			}
 		}
 
@@ -171,6 +176,9 @@ func NewProxy(s *server) elton.Handler {
 		}
 		if ifNoneMatch != "" {
 			reqHeader.Set(elton.HeaderIfNoneMatch, ifNoneMatch)
+		}
+		if headerRangeValue != "" {
+			reqHeader.Set(headerRange, headerRangeValue)
 		}
 		if acceptEncodingChanged {
 			reqHeader.Set(elton.HeaderAcceptEncoding, acceptEncoding)
